@@ -87,6 +87,10 @@ func (s *State) Get(key StoreKey) ([]byte, error) {
 		// Get the txSession first
 		result, err := s.txSession.Get(key)
 		if err == nil {
+			// a key deleted in this session reads as absent
+			if isTombstone(result) {
+				return nil, nil
+			}
 			// if got result, return directly
 			return result, err
 		}
@@ -95,6 +99,10 @@ func (s *State) Get(key StoreKey) ([]byte, error) {
 	// Get the cache first
 	result, err := s.cache.Get(key)
 	if err == nil {
+		// a key deleted in this block reads as absent
+		if isTombstone(result) {
+			return nil, nil
+		}
 		// if got result, return directly
 		return result, err
 	}
@@ -118,7 +126,9 @@ func (s *State) Exists(key StoreKey) bool {
 		// check existence in txSession
 		exist := s.txSession.Exists(key)
 		if exist {
-			return exist
+			// a key deleted in this session does not exist
+			value, err := s.txSession.Get(key)
+			return !(err == nil && isTombstone(value))
 		}
 	}
 
@@ -129,7 +139,23 @@ func (s *State) Exists(key StoreKey) bool {
 		return s.cs.Exists(key)
 	}
 
-	return exist
+	// a key deleted in this block does not exist
+	return !s.deletedInCache(key)
+}
+
+// deletedInCache tells if the block cache holds a deletion marker for the key, it reads
+// below the gas store so the existence check keeps its gas cost
+func (s *State) deletedInCache(key StoreKey) bool {
+	cache := s.cache
+	if gs, ok := cache.(*GasStore); ok {
+		cache = gs.SessionedDirectStorage
+	}
+	value, err := cache.Get(key)
+	return err == nil && isTombstone(value)
+}
+
+func isTombstone(value []byte) bool {
+	return bytes.Equal(value, []byte(TOMBSTONE))
 }
 
 func (s *State) Delete(key StoreKey) (bool, error) {
